@@ -12,3 +12,4 @@ import DateutilVerif.Properties.C08
 #print axioms C08.range_transitions
 #print axioms C08.tzstr_posix_partial
 #print axioms C08.tzstr_posix_midyear_partial
+#print axioms C08.tzrange_eq_tzstr
